@@ -1059,7 +1059,8 @@ class PandasModelBase(
             if c not in on_a_set:
                 is_null = res[c].isnull()
                 if is_null.any():
-                    res.loc[is_null, c] = res.loc[is_null, c + "_tmp_right_col"]
+                    # where() (not .loc assignment) so the column may change dtype, e.g. all-missing float -> bool
+                    res[c] = res[c].where(~is_null, res[c + "_tmp_right_col"])
                 res = res.drop(c + "_tmp_right_col", axis=1, inplace=False)
         self.drop_indices(res)
         return res
